@@ -1009,17 +1009,12 @@ Proof. unfold now. apply hk_bind; [apply hk_sys_clock|]. intros [s n]. apply hk_
 (* THE THEOREM at the API: whatever reproc_start returns and whatever fails on the way (any fault
    plan, allocation failures at any point included), the caller's heap holds exactly the blocks
    it held before -- the program path copy and the environment copy are always given back *)
-Theorem reproc_start_frees p argv o0 src ck w r p' w' :
-  wf w -> 0 <= w_cur w -> w_cur w = w_main w -> 0 < w_next_blk w ->
-  (forall id, w_next_blk w <= id -> heap_live id w = false) ->
+Lemma reproc_start_hq L p argv o0 src ck w r p' w' :
+  wf w -> 0 <= w_cur w -> hq L [] w ->
   (forall q, kp (w_cur w) (ck q)) -> (forall q, hk true (ck q)) ->
-  reproc_start p argv o0 src ck w = Ret (r, p') w' ->
-  forall id, heap_live id w' = heap_live id w.
+  reproc_start p argv o0 src ck w = Ret (r, p') w' -> hq L [] w'.
 Proof.
-  intros W Hpos Hmain Hnb Hhw Hkp Hkh E.
-  set (L := fun id => heap_live id w).
-  pose proof (hq_start w Hmain Hnb Hhw) as Hq0. fold L in Hq0.
-  enough (Hfin : hq L [] w') by (exact (hq_end _ _ Hfin)).
+  intros W Hpos Hq0 Hkp Hkh E.
   unfold reproc_start in E.
   assert (Hsf : forall pp r0 o cin cout cerr cexit w1 a, hq L [] w1 -> start_finish pp r0 o cin cout cerr cexit w1 = Ret a w' -> hq L [] w').
   { intros pp r0 o cin cout cerr cexit w1 a H1 Ef. exact (H_neutral _ _ _ _ _ _ (hk_start_finish false _ _ _ _ _ _ _) H1 Ef). }
@@ -1062,4 +1057,18 @@ Proof.
       exact (H_neutral _ _ _ _ _ _ (hk_now false) H6 En).
     - apply ret_inv in E7 as [_ ->]. exact H6. }
   exact (Hsf _ _ _ _ _ _ _ _ _ H7 E).
+Qed.
+
+(* THE THEOREM at the API: whatever reproc_start returns and whatever fails on the way (any fault
+   plan, allocation failures at any point included), the caller's heap holds exactly the blocks
+   it held before -- the program path copy and the environment copy are always given back *)
+Theorem reproc_start_frees p argv o0 src ck w r p' w' :
+  wf w -> 0 <= w_cur w -> w_cur w = w_main w -> 0 < w_next_blk w ->
+  (forall id, w_next_blk w <= id -> heap_live id w = false) ->
+  (forall q, kp (w_cur w) (ck q)) -> (forall q, hk true (ck q)) ->
+  reproc_start p argv o0 src ck w = Ret (r, p') w' ->
+  forall id, heap_live id w' = heap_live id w.
+Proof.
+  intros W Hpos Hmain Hnb Hhw Hkp Hkh E.
+  exact (hq_end _ _ (reproc_start_hq _ _ _ _ _ _ _ _ _ _ W Hpos (hq_start w Hmain Hnb Hhw) Hkp Hkh E)).
 Qed.
